@@ -1,5 +1,6 @@
 import TantivyModel.Proofs.Sorted
 import TantivyModel.Proofs.SortedDocView
+import TantivyModel.Proofs.SortedOrds
 /-!
 # C17 — A sorted index keeps every segment in sort order, with unchanged semantics
 
@@ -321,6 +322,27 @@ example : ReachableKeys false ((kmerge false
   · have e : ((fun x : SKey × Nat × Nat => x.1) ∘ fun k : SKey => (k, 1, 0)) = id := rfl
     rw [List.map_map, e, List.map_id]
     exact ReachableKeys.fresh _
+
+/-- STR / BYTES SORT FIELDS: merged term ordinals order exactly like the term bytes. For terms
+`k1`, `k2` of any of the segments' dictionaries, `remapped_term_ord` compares as the byte strings
+do, and equal ordinals mean equal terms — so the k-way merge on merged ordinals is the k-way merge
+on the terms themselves, and the model's use of byte-order ranks as keys for str/bytes sort fields
+loses nothing. -/
+theorem C17_merged_ordinals_order (dicts : List (List Merge.Key)) (k1 k2 : Merge.Key)
+    (h1 : ∃ d ∈ dicts, k1 ∈ d) (h2 : ∃ d ∈ dicts, k2 ∈ d) :
+    (mergedOrd dicts k1 < mergedOrd dicts k2 ↔ Merge.keyLt k1 k2 = true) ∧
+    (mergedOrd dicts k1 = mergedOrd dicts k2 ↔ k1 = k2) := by
+  obtain ⟨hs, hm⟩ := Merge.keyUnion_props dicts
+  have m1 : k1 ∈ mergedDict dicts := (hm k1).2 h1
+  have m2 : k2 ∈ mergedDict dicts := (hm k2).2 h2
+  refine ⟨idxOf_lt_iff_of_sorted _ hs k1 k2 m1 m2, ?_⟩
+  constructor
+  · exact idxOf_inj_of_mem _ k1 k2 m1 m2
+  · intro h; rw [h]
+
+example : mergedDict [[[98], [100]], [[97], [98]]] = [[97], [98], [100]] := by decide
+example : mergedOrd [[[98], [100]], [[97], [98]]] [100] = 2 ∧ mergedOrd [[[98], [100]], [[97], [98]]] [97] = 0 := by
+  decide
 
 /-- NULL PLACEMENT as a property of every sorted key sequence (hence of every fresh segment by
 `C17_sort_order_perm_sorted`, every k-way merged segment by `C17_merge_kway_sorted` and every
